@@ -1,11 +1,13 @@
 import DawgieVerif.Model.Sexp
 import DawgieVerif.Model.SchedIO
+import DawgieVerif.Model.ReprocessIO
 
 open DawgieVerif
 
 def dispatch (x : Sx) : Sx :=
   match x with
   | Sx.list (Sx.atom "sched" :: rest) => Sched.handle rest
+  | Sx.list (Sx.atom "repro" :: rest) => Reprocess.handle rest
   | _ => Sx.err "model"
 
 partial def loop (h : IO.FS.Stream) (out : IO.FS.Stream) : IO Unit := do
